@@ -60,6 +60,38 @@ def build_harness():
     _built = True
 
 
+_rcomp = None
+
+
+def rcomp_bin():
+    """rcomp built from /repo's working tree with the guard OFF (the binary users run)."""
+    global _rcomp
+    if _rcomp:
+        return _rcomp
+    t0 = time.time()
+    td = os.path.join(HARNESS, "target", "rcomp")
+    r = subprocess.run(["cargo", "build", "--offline", "-p", "rustemo-compiler", "--bin", "rcomp",
+                        "--target-dir", td], cwd=REPO, capture_output=True, text=True,
+                       env=dict(os.environ, CARGO_NET_OFFLINE="true"))
+    if r.returncode != 0:
+        sys.stderr.write(r.stderr[-3000:])
+        raise ToolError("rcomp build failed")
+    log("rcomp built in %.1fs" % (time.time() - t0))
+    _rcomp = os.path.join(td, "debug", "rcomp")
+    return _rcomp
+
+
+def vhist_bin():
+    return os.path.join(HARNESS, "target", "debug", "vhist")
+
+
+def clean_env():
+    """Environment for compiler runs: no OUT_DIR / CARGO_MANIFEST_DIR leaking in."""
+    e = {k: v for k, v in os.environ.items() if k not in ("OUT_DIR", "CARGO_MANIFEST_DIR", "RUSTEMO_TRACE")}
+    e["NO_COLOR"] = "1"
+    return e
+
+
 def vdrive_bin():
     return os.path.join(HARNESS, "target", "debug", "vdrive")
 
